@@ -52,7 +52,8 @@ func Plan(prop, tier string) []Mode {
 	case "C13":
 		return []Mode{seq("seq", pick(365, 30065), pick(25, 600))}
 	case "C14":
-		return []Mode{seq("seq", pick(2007, 600007), pick(130, 5000))}
+		return []Mode{seq("seq", pick(2007, 600007), pick(130, 5000)),
+			conc("readers", "race", pick(300, 20000), pick(50, 1000), 8, 4, 16, 2)}
 	case "C15":
 		return []Mode{seq("seq", pick(1008, 500008), pick(64, 4000))}
 	case "C16":
@@ -128,7 +129,7 @@ func Plan(prop, tier string) []Mode {
 		return ms
 	case "C19":
 		ms := []Mode{
-			seq("queued", 48, 6),
+			seq("queued", 72, 6),
 			conc("timed", "plain", pick(1500, 60000), pick(125, 1500), 12, 2, 4, 16, 1),
 			conc("timed", "race", pick(500, 20000), pick(50, 500), 10, 2, 4, 16),
 		}
